@@ -138,6 +138,18 @@ R02.4 (Go) interface discovery does not descend into function bodies (FuncDecl a
 	c.Rule("R02.7", 10, "the import walk visits every component of every type constructor (C01 rule R01.1)")
 	rw := loadRepo(c, packages.LoadSyntax, "", "./template", "go/types")
 	subRules(c, "R02.7", "type-walk", "a parameter type is rendered as written in the source only if every package it mentions was registered: ", func(sub *Ctx) { goR011(sub, rw) })
+	// .. and only if no parameter of the same method is named like a qualifier its types use: every qualifier of
+	// the file is a taken name in every method scope (C15 rules R15.3/R15.4; round 6: a parameter `context`
+	// next to context.Context made the mock's method signature refer to the parameter)
+	subRules(c, "R02.7", "qualifier-names", "a parameter type keeps its meaning only if no parameter name shadows a qualifier: ", func(sub *Ctx) {
+		rt := loadRepo(sub, packages.LoadSyntax, "", "./template")
+		sub.Rule("R15.1", 0, "")
+		sub.Rule("R15.2", 0, "")
+		sub.Rule("R15.3", 0, "")
+		sub.Rule("R15.4", 0, "")
+		ruleNameAllocators(sub, rt, "R15.1", "R15.2", "R15.3")
+		ruleAddImport(sub, rt, "R15.4")
+	})
 }
 
 func matryerEnsureLine(c *Ctx, p *TPath) {
